@@ -74,10 +74,15 @@ def validate_shard(args):
                    timeout=7200, xmx="2g")
 
 
+def failfast(ctx):
+    """mutation experiments only: VERIF_FAILFAST=1 stops after the first stage that found a violation"""
+    return bool(os.environ.get("VERIF_FAILFAST")) and bool(ctx.violations)
+
+
 def validate_traces(ctx, traces, tag="c03T"):
     wd = tlc.workdir(tag)
     paths = []
-    for i, sh in enumerate(tlc.shard(traces, tlc.NCPU)):
+    for i, sh in enumerate(tlc.shard(traces, max(1, min(tlc.NCPU, len(traces) // 150)))):
         p = os.path.join(wd, "tr%d.ndjson" % i)
         tlc.write_ndjson(p, [{"t": t["t"], "fmt": t["fmt"], "ev": t["ev"]} for t in sh])
         paths.append((p, "%s%d" % (tag, i)))
@@ -217,19 +222,21 @@ def run(ctx):
     ctx.note("wall_s_M", round(time.time() - t0, 1))
     t0 = time.time()
     # --- G ---------------------------------------------------------------------------------------
-    if quick:
-        gen_and_replay(ctx, "IspecGen_all8_quick.cfg", "all8")
-        gen_and_replay(ctx, "IspecGen_quick.cfg", "exhaustive")
-        gen_and_replay(ctx, "IspecSim.cfg", "simulated", simulate="num=40", depth=16)
-    else:
-        gen_and_replay(ctx, "IspecGen_all8_thorough.cfg", "all8")
-        gen_and_replay(ctx, "IspecGen_thorough.cfg", "exhaustive")
-        gen_and_replay(ctx, "IspecSim.cfg", "simulated", simulate="num=1500", depth=16)
+    gens = ([("IspecGen_all8_quick.cfg", "all8", None), ("IspecGen_quick.cfg", "exhaustive", None),
+             ("IspecSim.cfg", "simulated", "num=40")] if quick else
+            [("IspecGen_all8_thorough.cfg", "all8", None), ("IspecGen_thorough.cfg", "exhaustive", None),
+             ("IspecSim.cfg", "simulated", "num=1500")])
+    for cfg, kind, sim in gens:
+        gen_and_replay(ctx, cfg, kind, simulate=sim, depth=16 if sim else None)
+        if failfast(ctx):
+            return
     ctx.exhaustive = False
     ctx.note("wall_s_G", round(time.time() - t0, 1))
     t0 = time.time()
     # --- T ---------------------------------------------------------------------------------------
     shipped(ctx, 3 if quick else 24)
+    if failfast(ctx):
+        return
     shipped_macros(ctx)
     ctx.note("wall_s_T", round(time.time() - t0, 1))
 
